@@ -109,12 +109,15 @@ Fixpoint chunks (w : nat) (n : nat) (l : list bstr) : list bstr :=
   end.
 
 (* c3d::readParam for strings: one byte at a time (a NUL byte yields the empty string), then
-   re-assembled dims[0] at a time and right-trimmed *)
+   re-assembled dims[0] at a time and right-trimmed.  Two nested-loop passes: _readMatrix over ALL the dimensions (no
+   iteration at all when the first one is 0) and _dispatchMatrix over the dimensions AFTER the first, which therefore runs
+   prod(rest) times even when the first dimension is 0 and not a byte is read *)
 Definition read_strings (dims : list N) : RD (list bstr) :=
   match dims with
   | [] => rub (EmptyVec 60)
   | w :: rest =>
       blowup_guard 61 (loop_cost dims 1) ;;;
+      blowup_guard 67 (loop_cost rest 1) ;;;
       cells <- rd_many (N.to_nat (prodN dims)) (rd_string 1) ;;
       match rest with
       | [] => if w =? 0 then rret [] else rret [rtrim (concat cells)]
